@@ -141,6 +141,57 @@ fn main() {
                 std::process::exit(3);
             }
         }
+        "simcorr" => {
+            let prop = a.get("prop").cloned().unwrap_or_default();
+            let budget: u64 = a.get("budget").and_then(|s| s.parse().ok()).unwrap_or(100_000);
+            let threads: u64 = a.get("threads").and_then(|s| s.parse().ok()).unwrap_or(8).max(1);
+            let thorough = a.contains_key("thorough");
+            let per = (budget + threads - 1) / threads;
+            let t0 = std::time::Instant::now();
+            let handles: Vec<_> = (0..threads)
+                .map(|t| {
+                    let prop = prop.clone();
+                    std::thread::spawn(move || std::panic::catch_unwind(|| search3::sim_corr(&prop, seed, t * 10_000_000, per, thorough)).ok())
+                })
+                .collect();
+            let mut stats = Stats::default();
+            let mut failures = Vec::new();
+            let mut crashed = 0;
+            for h in handles {
+                match h.join() {
+                    Ok(Some(r)) => {
+                        stats.merge(r.stats);
+                        failures.extend(r.failures);
+                    }
+                    _ => crashed += 1,
+                }
+            }
+            let fj: Vec<String> = failures
+                .iter()
+                .take(3)
+                .map(|(c, m)| format!("{{\"case\":{},\"mismatch\":{}}}", c.to_json(), mismatch_json(m)))
+                .collect();
+            println!(
+                "{{\"kind\":\"simcorr\",\"profile\":{},\"debug_build\":{},\"seed\":{},\"cases\":{},\"ops\":{},\"draws\":{},\"distinct\":{},\"distinct_nontrivial\":{},\"failures\":{},\"crashed_workers\":{},\"wall_s\":{:.2},\"hist\":{},\"samples\":{},\"failing\":[{}]}}",
+                json_str(&format!("sim-histories-{}", prop)),
+                corr::debug_build(),
+                seed,
+                stats.cases,
+                stats.ops,
+                stats.draws,
+                stats.distinct.len(),
+                stats.nontrivial_distinct.len(),
+                failures.len(),
+                crashed,
+                t0.elapsed().as_secs_f64(),
+                stats.hist_json(),
+                json_list(&stats.samples),
+                fj.join(",")
+            );
+            if !failures.is_empty() || crashed > 0 {
+                std::process::exit(3);
+            }
+        }
         "replay" => {
             let path = a.get("file").cloned().unwrap_or_default();
             let case = match parse_case_file(&path) {
@@ -234,7 +285,7 @@ fn main() {
             }
         }
         _ => {
-            eprintln!("usage: harness corr|replay|search|search-replay ...");
+            eprintln!("usage: harness corr|simcorr|replay|search|search-replay ...");
             std::process::exit(2);
         }
     }
